@@ -1,0 +1,23 @@
+//go:build !verif
+
+package server
+
+import (
+	"net"
+
+	"golang.org/x/net/ipv4"
+	"golang.org/x/net/ipv6"
+
+	"github.com/insomniacslk/dhcp/dhcpv4"
+	"github.com/insomniacslk/dhcp/dhcpv6"
+)
+
+// Without the `verif` build tag nothing is captured and replies go to the socket.
+
+func verifCapture4(*listener4, *dhcpv4.DHCPv4, *dhcpv4.DHCPv4, *net.UDPAddr, *ipv4.ControlMessage, bool) bool {
+	return false
+}
+
+func verifCapture6(*listener6, dhcpv6.DHCPv6, dhcpv6.DHCPv6, *net.UDPAddr, *ipv6.ControlMessage) bool {
+	return false
+}
